@@ -13,7 +13,7 @@
    [mem_ev_ok]: a record is shorter than 2^31 bytes (the stated maximum of the pool arithmetic). *)
 (* Model.MemoryRun (the correspondence entry point) is imported so that building this file also rebuilds it *)
 From SV Require Import Model.Common Model.Memory Model.MemoryRun Model.MemoryStores Proofs.MemoryProofs Proofs.MemoryStatic Proofs.MemoryWitnesses
-  Proofs.MemoryStoresProofs.
+  Proofs.MemoryStoresProofs Model.ParseTime Model.MemoryXfState Proofs.MemoryXfStateProofs.
 Open Scope nat_scope.
 
 (* ISOLATION.  In every history (any records before, after and in flight, any order, any pool behaviour) the decoded
@@ -250,3 +250,75 @@ Proof.
   - split; [apply mem_static_targets_own_sound; exact wit_static_own|]. split; [exact wit_static_shared|exact wit_own_run].
 Qed.
 Print Assumptions C12_example.
+
+(* ---------------------------------------------------------------------------------------------------------------
+   STATE OF A TRANSFORM INSTANCE (Model/MemoryXfState.v).  A transform object lives as long as its pipeline; parseTime
+   keeps a cache  zone string -> location  (and a seeded variant keeps the last parsed string and its result).
+   [pt_copies cfg]: what the instance keeps are copies - the code after "fix: parseTime keeps its own copy of a timezone
+   string used as cache key" (no shortcut), or a shortcut that copies.  [pt_hash cfg] (where a Go map files a key) is
+   arbitrary.  Histories: any interleaving of the events of Model/Memory.v (Parse with any choice of pooled struct and
+   pooled buffer, the other transformations, outputs, releases) with parseTime calls on live records; the ghost log
+   holds (value read from the record's "time" field, result).
+   --------------------------------------------------------------------------------------------------------------- *)
+
+(* In EVERY history of EVERY configuration each parseTime call returned what the stateless transform of property C13
+   returns for the value it read - equivalently what a NEW instance (fresh pipeline) returns for that record alone, on any
+   heap and through any reference: nothing an earlier record left in the instance shows in a later one. *)
+Theorem C12_transform_state_isolated :
+  forall c cfg key evs s,
+    pt_copies cfg -> pt_sys_run c cfg key (pt_sys_init c) evs = Some s ->
+    Forall (fun e => snd e = transform_parse_time (pt_local_off cfg) (fst e) /\
+                     forall g0 ref0, snd e = snd (pt_apply cfg g0 pt_init (fst e) ref0)) (xs_log s).
+Proof. exact pt_history_isolated. Qed.
+Print Assumptions C12_transform_state_isolated.
+
+(* One call, in any state an instance of copies can be in ([pt_inv]: reachable states satisfy it, the new instance does),
+   on ANY heap g - whatever has happened to records, buffers and pools since the state was built: the result is that of
+   the stateless transform, and the instance remains one of copies; the call changes nothing of the pipeline state but the
+   record's timestamp. *)
+Theorem C12_transform_state_one_call :
+  (forall cfg, pt_inv cfg pt_init) /\
+  (forall cfg g st v ref st' r, pt_copies cfg -> pt_inv cfg st -> pt_apply cfg g st v ref = (st', r) ->
+     r = transform_parse_time (pt_local_off cfg) v /\ pt_inv cfg st') /\
+  (forall cfg g st h key st' r v g', pt_transform cfg g st h key = Some (st', r, v, g') ->
+     g' = match r with TpSet u n => pt_set_ts g h (pt_ts_code u n) | _ => g end) /\
+  (forall g h ts, let g' := pt_set_ts g h ts in
+     g_bufs g' = g_bufs g /\ g_cfg g' = g_cfg g /\ g_dirty g' = g_dirty g /\ g_out g' = g_out g /\ g_log g' = g_log g /\
+     g_status g' = g_status g /\ g_next_rid g' = g_next_rid g /\ map pt_slot_rest (g_slots g') = map pt_slot_rest (g_slots g)).
+Proof. exact (conj pt_inv_init (conj pt_apply_isolated (conj pt_transform_ts pt_set_ts_frame))). Qed.
+Print Assumptions C12_transform_state_one_call.
+
+(* REFUTED for an instance that remembers the last parsed string WITHOUT copying it (the seeded change): record A
+   ("...15:50:46+03:00", pooled) is parsed, serialized and released; record B ("...15:50:47+05:00") gets A's struct and A's
+   buffer; the remembered string now reads B's bytes, the comparison is true and B is given A's instant - in the result and
+   in the serialized output.  Alone, B gets 1565866247 (10:50:47Z). *)
+Theorem C12_transform_state_last_value_ref_refuted :
+  transform_parse_time 0 (firstn 25 (skipn 7 xw_rec_b)) = TpSet 1565866247 0 /\
+  xw_run (xw_cfg KeepCopy (Some KeepRef) (fun _ => 0%N)) xw_rec_b
+    = Some ([TpSet 1565873446 0; TpSet 1565873446 0], [1565873446000000000; 1565873446000000000]%Z).
+Proof. exact (conj (proj2 xw_alone) xw_last_ref_run). Qed.
+Print Assumptions C12_transform_state_last_value_ref_refuted.
+
+(* REFUTED for the code BEFORE the fix (timezoneCache[tzStr] with tzStr a substring of the record), when the map files
+   "+03:00" and "+05:00" in the same place: the entry of A, whose key now reads "+05:00", is found for B and B's instant is
+   computed with A's zone, two hours off.  With a filing function that separates the two strings the stale entry is not
+   found: the defect needs a collision (reproduced on the real code: 51 of 3000 pooled records with 1500 distinct zones). *)
+Theorem C12_transform_state_zone_key_ref_refuted :
+  xw_run (xw_cfg KeepRef None (fun _ => 0%N)) xw_rec_b
+    = Some ([TpSet 1565873446 0; TpSet 1565873447 0], [1565873446000000000; 1565873447000000000]%Z) /\
+  xw_run (xw_cfg KeepRef None (fun b => N.of_nat (length b) + nth 2 b 0)%N) xw_rec_b
+    = Some ([TpSet 1565873446 0; TpSet 1565866247 0], [1565873446000000000; 1565866247000000000]%Z).
+Proof. exact (conj xw_zone_ref_run xw_zone_ref_no_collision). Qed.
+Print Assumptions C12_transform_state_zone_key_ref_refuted.
+
+(* NON-VACUITY: the hypothesis [pt_copies] is met by the repaired code and by a copying shortcut, even with the worst
+   filing function (everything collides); on the same two-record history with struct and buffer reuse both records get
+   their own instants, in the results and in the serialized outputs. *)
+Theorem C12_transform_state_example :
+  pt_copies (xw_cfg KeepCopy None (fun _ => 0%N)) /\ pt_copies (xw_cfg KeepCopy (Some KeepCopy) (fun _ => 0%N)) /\
+  xw_run (xw_cfg KeepCopy None (fun _ => 0%N)) xw_rec_b
+    = Some ([TpSet 1565873446 0; TpSet 1565866247 0], [1565873446000000000; 1565866247000000000]%Z) /\
+  xw_run (xw_cfg KeepCopy (Some KeepCopy) (fun _ => 0%N)) xw_rec_b
+    = Some ([TpSet 1565873446 0; TpSet 1565866247 0], [1565873446000000000; 1565866247000000000]%Z).
+Proof. exact xw_copy_run. Qed.
+Print Assumptions C12_transform_state_example.
